@@ -34,7 +34,7 @@ CFG = {
                   "Round 3: cross_protocol_grapheme_plain/_shift (multi-code-point clusters), Props/C09Driver (hdom of the _checked theorems "
                   "discharged for the driver's mkUni), Props/C09Int64 (Go's 64-bit int: int64_sub_one, decode_int64_agrees, "
                   "decode_min_int64_mods; the driver compares the implementation with decodeKey64, MinInt64 cases in the dec stream), "
-                  "rune_conversion_wraps_32. Modelled not verified: unicode tables, parser.",
+                  "rune_conversion_wraps_32, shift_forgiven_only_documented, decode64_csi_total; xpg stream (grapheme clusters under both encodings on the real code). Modelled not verified: unicode tables, parser.",
     "assumptions": ["binding strings and Key.Text are valid UTF-8 (modelled as code-point lists)",
                     "ModifierMask values are non-negative (decodeKey clamps)",
                     "Go int modelled as Z; the 64-bit wrap of pm[0]-1 / EventType(ps)-1 at math.MinInt64 is modelled by decodeKey64 "
